@@ -182,7 +182,7 @@ def _np_dims(rule):
         Dim("kernel", [3, 2], [3, 2, 1, 4]),
         Dim("insize", [5, 6], [5, 6, 7, 1]),
         Dim("kshape_attr", ["present", "absent"]),
-        Dim("rank", [4], [4, 3, 5]),
+        Dim("rank", [4, 3, 5], cost=1),
         Dim("aniso", ["no", "yes"], cost=1),     # second spatial axis gets stride/dilation 1 and size+1
         Dim("group", [1, 2], cost=1),
         Dim("conv_pads", ["absent", "zeros", "ones"], cost=1),
@@ -289,7 +289,8 @@ def _np_klass(nd, p, rule):
     return None
 
 
-S.register(Space("normalize_pad_format", _np_dims, _np_build, near=_np_near, prune=_np_prune, klass=_np_klass, spec=_np_spec),
+S.register(Space("normalize_pad_format", _np_dims, _np_build, near=_np_near, prune=_np_prune, klass=_np_klass, spec=_np_spec,
+                 max_dev={"thorough": 1}),
            rule_ids=["normalize_pad_format_conv_rule", "normalize_pad_format_conv_integer_rule"])
 
 
@@ -311,9 +312,9 @@ def _bn_dims(rule):
         if "transpose" in rid:
             d += [Dim("output_padding", ["absent", "1"], cost=1)]
     d += [
-        Dim("eps", ["absent", 0.1], ["absent", 1e-3, 0.1]),
-        Dim("training", ["absent", 0, 1, "1+outputs"]),
-        Dim("dtype", ["f32"], ["f32", "f64"]),
+        Dim("eps", ["absent", 1e-3, 0.1], cost=1),
+        Dim("training", ["absent", 0, 1, "1+outputs"], cost=1),
+        Dim("dtype", ["f32", "f64"], cost=1),
         Dim("shared", ["no", "weight", "bias", "bn-scale"], cost=1),
         S.d_ck(6), S.d_inter(1), S.D_DIMS, S.D_VI, S.d_opset(18, 13, 21, 23),
     ]
@@ -495,9 +496,9 @@ def _rb_dims(rule):
          Dim("ck", ["init", "node", "init_input@0", "input@0"])]
     if "gemm" in rid:
         d += [Dim("C", ["[N]", "[M,N]", "[1]", "[]"], ["[N]", "[M,N]", "[1]", "[]", "[1,N]", "[M,1]"]),
-              Dim("transA", [0, 1]), Dim("transB", [0, 1]),
-              Dim("alpha", ["absent", 2.0]), Dim("beta", ["absent", 0.5]),
-              Dim("dtype", ["f32"], ["f32", "f64", "i32"]),
+              Dim("transA", [0, 1], cost=1), Dim("transB", [0, 1], cost=1),
+              Dim("alpha", ["absent", 2.0], cost=1), Dim("beta", ["absent", 0.5], cost=1),
+              Dim("dtype", ["f32", "f64", "i32"], cost=1),
               S.D_DIMS, S.D_VI, S.d_opset(18, 13, 9, 10, 11, 21, 23)]
     elif "qlinear" in rid:
         d += [Dim("xdt", ["u8", "i8"]), Dim("group", [1, 2]), Dim("conv_pads", ["absent", "ones"]),
